@@ -242,7 +242,7 @@ func actionsDeep(stmts []ast.Stmt, prefix string) []string {
 }
 
 // extraGens: further Gen files, added as properties are built.
-func extraGens(root, st *pkg) []*genFile { return []*genFile{genRecv(root), genSession(root), genAuth(root, st), genComponent(root, st), genKeepalive(root), genSupervisor(root), genC01(st), genRouter(root), genDispatch(st), genSendPath(root), genQueue(root, st)} }
+func extraGens(root, st *pkg) []*genFile { return []*genFile{genRecv(root), genSession(root), genAuth(root, st), genComponent(root, st), genKeepalive(root), genSupervisor(root), genC01(st), genRouter(root), genDispatch(st), genSendPath(root), genQueue(root, st), genBackoffUse(root), genTransport(root), genDecoder(root, st)} }
 
 // assignsTo lists, in source order, the right-hand sides assigned to the selector `sel` (e.g. "t.isSecure") in fn,
 // interleaved with the calls named in `marks` (so that the order "Handshake, isSecure=false, VerifyHostname,
@@ -480,5 +480,100 @@ func genQueue(root, st *pkg) *genFile {
 	g.def("typeMatcherCases", "List String", leanStrList(typeSwitchCases(root.fn("nsTypeMatcher", "Match"))), "type switch of nsTypeMatcher.Match")
 	g.def("routeMatch", "List String", leanStrList(fnActions(root.fn("Route", "Match"))), "flattened actions of Route.Match")
 	g.def("routerMatch", "List String", leanStrList(fnActions(root.fn("Router", "Match"))), "flattened actions of Router.Match")
+	return g
+}
+
+// localDecls lists where the local variables of fn are introduced: one entry "<prefix><name>:<type or :=>" per
+// `var` declaration and per `:=` definition, the prefix naming the enclosing statements ("for:", "if:", "else:").
+// It tells a tie WHERE a piece of state lives (e.g. the retry loop's backoff: before the loop, not inside it).
+func localDecls(fd *ast.FuncDecl) []string {
+	if fd == nil || fd.Body == nil {
+		return []string{"<missing function>"}
+	}
+	var out []string
+	var walk func(stmts []ast.Stmt, prefix string)
+	walk = func(stmts []ast.Stmt, prefix string) {
+		for _, st := range stmts {
+			switch s := st.(type) {
+			case *ast.DeclStmt:
+				if gd, ok := s.Decl.(*ast.GenDecl); ok {
+					for _, sp := range gd.Specs {
+						if vs, ok := sp.(*ast.ValueSpec); ok {
+							for _, n := range vs.Names {
+								out = append(out, prefix+n.Name+":"+exprString(vs.Type))
+							}
+						}
+					}
+				}
+			case *ast.AssignStmt:
+				if s.Tok.String() == ":=" {
+					for _, l := range s.Lhs {
+						out = append(out, prefix+exprString(l)+"::=")
+					}
+				}
+			case *ast.IfStmt:
+				if s.Init != nil {
+					walk([]ast.Stmt{s.Init}, prefix+"if:")
+				}
+				walk(s.Body.List, prefix+"if:")
+				switch e := s.Else.(type) {
+				case *ast.BlockStmt:
+					walk(e.List, prefix+"else:")
+				case *ast.IfStmt:
+					walk([]ast.Stmt{e}, prefix+"else:")
+				}
+			case *ast.ForStmt:
+				walk(s.Body.List, prefix+"for:")
+			case *ast.RangeStmt:
+				walk(s.Body.List, prefix+"for:")
+			case *ast.BlockStmt:
+				walk(s.List, prefix)
+			}
+		}
+	}
+	walk(fd.Body.List, "")
+	return out
+}
+
+// methodCallsOn lists, in source order, the methods called on the local variable `name` inside fn, with the
+// same statement prefixes as `actionsDeep`.
+func methodCallsOn(fd *ast.FuncDecl, name string) []string {
+	var out []string
+	for _, a := range fnActions(fd) {
+		i := strings.LastIndex(a, ":")
+		if strings.HasPrefix(a[i+1:], name+".") {
+			out = append(out, a)
+		}
+	}
+	return out
+}
+
+func genBackoffUse(root *pkg) *genFile {
+	g := newGen("BackoffUse")
+	fd := root.fn("StreamManager", "resume")
+	var bd []string
+	for _, d := range localDecls(fd) {
+		rest := d[strings.LastIndex(d[:strings.LastIndex(d, ":")], ":")+1:]
+		if strings.HasPrefix(rest, "backoff:") || strings.HasSuffix(d, ":backoff") || strings.HasSuffix(d, ":<missing function>") {
+			bd = append(bd, d)
+		}
+	}
+	g.def("resumeBackoffDecl", "List String", leanStrList(bd), "where StreamManager.resume introduces its back-off state: every local named `backoff` or of type backoff, with the enclosing statements as prefix")
+	g.def("resumeBackoffCalls", "List String", leanStrList(methodCallsOn(fd, "backoff")), "methods called on the local `backoff` in StreamManager.resume")
+	g.def("waitBody", "List String", leanStrList(fnActions(root.fn("backoff", "wait"))), "flattened actions of backoff.wait")
+	g.def("durationBody", "List String", leanStrList(fnActions(root.fn("backoff", "duration"))), "flattened actions of backoff.duration")
+	return g
+}
+
+// genTransport: what the transports do when they are closed and how the WebSocket transport reads.
+func genTransport(root *pkg) *genFile {
+	g := newGen("Transport")
+	g.def("xmppClose", "List String", leanStrList(fnActions(root.fn("XMPPTransport", "Close"))), "flattened actions of XMPPTransport.Close")
+	g.def("xmppReceivedStreamClose", "List String", leanStrList(fnActions(root.fn("XMPPTransport", "ReceivedStreamClose"))), "flattened actions of XMPPTransport.ReceivedStreamClose")
+	g.def("wsClose", "List String", leanStrList(fnActions(root.fn("WebsocketTransport", "Close"))), "flattened actions of WebsocketTransport.Close")
+	g.def("wsCleanup", "List String", leanStrList(fnActions(root.fn("WebsocketTransport", "cleanup"))), "flattened actions of WebsocketTransport.cleanup")
+	g.def("wsRead", "List String", leanStrList(fnActions(root.fn("WebsocketTransport", "Read"))), "flattened actions of WebsocketTransport.Read")
+	g.def("wsStartReader", "List (List String)", leanStrListList(funcLits(root.fn("WebsocketTransport", "startReader"))), "the reader goroutine started by WebsocketTransport.startReader")
+	g.def("wsPing", "List String", leanStrList(fnActions(root.fn("WebsocketTransport", "Ping"))), "flattened actions of WebsocketTransport.Ping")
 	return g
 }
